@@ -21,6 +21,7 @@ import (
 	"io"
 	"os"
 	"path"
+	"path/filepath"
 	"runtime"
 	"sort"
 	"strings"
@@ -460,11 +461,13 @@ func (this *BlockCompressor) Compress() (int, uint64) {
 		if fi.IsDir() {
 			inputIsDir = true
 
-			if len(formattedInName) > 1 && formattedInName[len(formattedInName)-1] == '.' {
-				formattedInName = formattedInName[0 : len(formattedInName)-1]
-			}
+			// The names in the file list are cleaned paths ("./dir", "dir/", "dir/." all
+			// give "dir/file"): the prefix removed from them must have the same form
+			formattedInName = filepath.Clean(formattedInName)
 
-			if len(formattedInName) > 0 && formattedInName[len(formattedInName)-1] != os.PathSeparator {
+			if formattedInName == "." {
+				formattedInName = ""
+			} else if formattedInName[len(formattedInName)-1] != os.PathSeparator {
 				formattedInName += string(os.PathSeparator)
 			}
 
